@@ -27,6 +27,16 @@ func c01One(o *out, text string, want influxql.Statement, kind string) {
 	if got != rp["want"] {
 		o.fail("", fmt.Sprintf("ParseStatement(%q) builds a different AST than the text denotes: %s", text, st.String()), rp)
 	}
+	// the statement ends where its text ends: followed by a separator and another statement it parses to the same AST
+	qt := text + ";SHOW USERS"
+	q, qerr, _ := addParseQueryCase(o, qt, nil)
+	o.checked()
+	rq := map[string]interface{}{"op": "parse_query_frame", "text": qt, "want": stmtSexp(want)}
+	if qerr != nil {
+		o.fail("", fmt.Sprintf("ParseQuery(%q) fails although the statement parses alone: %v", qt, qerr), rq)
+	} else if len(q.Statements) != 2 || stmtSexp(q.Statements[0]) != rp["want"] || stmtSexp(q.Statements[1]) != "(44)" {
+		o.fail("", fmt.Sprintf("ParseQuery(%q) does not yield the statement and SHOW USERS: %s", qt, q.String()), rq)
+	}
 }
 
 func propC01(o *out, r *rng, thorough bool) {
@@ -79,6 +89,13 @@ func init() {
 			o.fail("", "rejected: "+err.Error(), rp)
 		} else if stmtSexp(st) != rpStr(rp, "want") {
 			o.fail("", "AST differs from the one the text denotes: "+st.String(), rp)
+		}
+	}
+	replayers["parse_query_frame"] = func(o *out, rp map[string]interface{}) {
+		q, err := influxql.ParseQuery(rpStr(rp, "text"))
+		o.checked()
+		if err != nil || len(q.Statements) != 2 || stmtSexp(q.Statements[0]) != rpStr(rp, "want") {
+			o.fail("", "still not the statement followed by SHOW USERS", rp)
 		}
 	}
 	replayers["lookup"] = func(o *out, rp map[string]interface{}) {
